@@ -106,6 +106,7 @@ func writeEvidence(e *engine, prop, tier string, seed int, results []*obligation
 			"functions_encoded":             fl,
 			"stdlib_functions_executed":     stdl,
 			"native_replays":                replayed,
+			"encoder_selftest":              e.selftest,
 			"observed_values_compared_engine_vs_native": obsCompared,
 			"known_findings_seen":           known,
 			"inconclusive":                  incon,
@@ -129,7 +130,3 @@ func writeEvidence(e *engine, prop, tier string, seed int, results []*obligation
 
 func round2(f float64) float64 { return float64(int64(f*100+0.5)) / 100 }
 
-func cmdSelftest(args []string) int {
-	fmt.Println("selftest: not implemented yet")
-	return 0
-}
